@@ -19,9 +19,42 @@ from models import isotp_ref
 RX = 0x7E8
 
 
+_CLS = {}
+
+
 def _mk():
+    """a state machine whose callbacks use their telegram index the way the snoop tool's
+    verbose decoder does (self.can_rx_id(idx), self.telegram_data(idx))"""
     import odxtools.isotp_state_machine as iso
-    return iso.IsoTpStateMachine([RX])
+    if "cls" not in _CLS:
+        class Recording(iso.IsoTpStateMachine):
+            def _use(self, idx):
+                self.can_rx_id(idx)
+                self.telegram_data(idx)
+
+            def on_single_frame(self, idx, payload):
+                self._use(idx)
+
+            def on_first_frame(self, idx, payload):
+                self._use(idx)
+
+            def on_consecutive_frame(self, idx, seg, payload):
+                self._use(idx)
+
+            def on_flow_control_frame(self, idx, flag):
+                self._use(idx)
+
+            def on_sequence_error(self, idx, expected, got):
+                self._use(idx)
+
+            def on_frame_type_error(self, idx, ft):
+                self._use(idx)
+
+            def on_telegram_complete(self, idx, payload):
+                self._use(idx)
+
+        _CLS["cls"] = Recording
+    return _CLS["cls"]([RX])
 
 
 def _feed(sx, sm, ref, fr, tag):
